@@ -613,6 +613,7 @@ theorem encode_ok_of_not_rejected (e : Enumeration) (x : Input) (h : ¬ x.Reject
       exact h hn
     subst this
     simp [encode_otherArr, Input.resultOwner, Input.elems]
+  | scalarArr el => exact absurd trivial h
 
 /-- **Rejected inputs raise.** -/
 theorem encode_error_of_rejected (e : Enumeration) (x : Input) (h : x.Rejected e) :
@@ -655,6 +656,7 @@ theorem encode_error_of_rejected (e : Enumeration) (x : Input) (h : x.Rejected e
   | otherArr n =>
     rw [encode_otherArr, if_neg h]
     exact ⟨_, rfl⟩
+  | scalarArr el => exact ⟨_, rfl⟩
 
 /-- every element of an accepted input designates a member -/
 theorem designates_of_not_rejected (e : Enumeration) (x : Input) (hown : x.NotForeignArray e)
@@ -689,6 +691,7 @@ theorem designates_of_not_rejected (e : Enumeration) (x : Input) (hown : x.NotFo
       exact h hn
     subst this
     simp [Input.elems] at hel
+  | scalarArr el' => exact absurd trivial h
 
 /-- the index assigned to an element that designates a member designates that member -/
 theorem code_lt_size (e : Enumeration) (x : Input) (hwf : x.WF e) {el : Elem} (hel : el ∈ x.elems)
@@ -735,5 +738,75 @@ theorem names_getD_nameIndex {names : List String} {s : String} (hs : s ∈ name
   obtain ⟨i, hi⟩ := nameIndex?_isSome_of_mem hs
   have := nameIndex?_some hi
   simp [hi, List.getD_eq_getElem?_getD, this]
+
+/-! ## 5. re-indexing an `EnumArray` (slices, masks, fancy indexing, `take`, `copy`, `view`) -/
+
+theorem allOk_ok_forall {α β : Type} {f : α → Except String β} {l : List α} {bs : List β}
+    (h : allOk f l = .ok bs) : ∀ a ∈ l, ∃ b, f a = .ok b := by
+  intro a ha
+  cases hfa : f a with
+  | ok b => exact ⟨b, rfl⟩
+  | error m =>
+    obtain ⟨m', hm'⟩ := allOk_error (f := f) (l := l) ⟨a, ha, m, hfa⟩
+    rw [hm'] at h; cases h
+
+theorem decode_ok_inv {e : Enumeration} {a : EnumArray} {ms : List Elem} (h : decode e a = .ok ms) :
+    (∀ i ∈ a.idx, i < e.size) ∧ ms = a.idx.map (Elem.member e.cid) := by
+  have hall : ∀ i ∈ a.idx, i < e.size := by
+    intro i hi
+    obtain ⟨b, hb⟩ := allOk_ok_forall h i hi
+    by_cases hlt : i < e.size
+    · exact hlt
+    · simp [hlt] at hb
+  refine ⟨hall, ?_⟩
+  rw [decode_ok e a hall] at h
+  cases h; rfl
+
+theorem decodeToStr_ok_inv {e : Enumeration} {a : EnumArray} {ns : List String}
+    (h : decodeToStr e a = .ok ns) :
+    (∀ i ∈ a.idx, i < e.size) ∧ ns = a.idx.map (fun i => e.names.getD i "") := by
+  have hall : ∀ i ∈ a.idx, i < e.size := by
+    intro i hi
+    obtain ⟨b, hb⟩ := allOk_ok_forall h i hi
+    cases hg : e.names[i]? with
+    | none => simp [hg] at hb
+    | some s => exact (List.getElem?_eq_some_iff.mp hg).1
+  refine ⟨hall, ?_⟩
+  rw [decodeToStr_ok e a hall] at h
+  cases h; rfl
+
+theorem take_ok (a : EnumArray) (positions : List Nat) (h : ∀ p ∈ positions, p < a.idx.length) :
+    a.take positions = .ok ⟨a.owner, positions.filterMap (fun p => a.idx[p]?)⟩ := by
+  unfold EnumArray.take
+  have : allOk (pick a.idx) positions = .ok (positions.map (fun p => a.idx.getD p 0)) := by
+    apply allOk_map
+    intro p hp
+    simp [pick, List.getD_eq_getElem?_getD, List.getElem?_eq_getElem (h p hp)]
+  rw [this]
+  simp only []
+  congr 2
+  clear this
+  induction positions with
+  | nil => rfl
+  | cons p ps ih =>
+    have hp := h p (List.mem_cons_self ..)
+    have ih' := ih (fun q hq => h q (List.mem_cons_of_mem _ hq))
+    simp only [List.getD_eq_getElem?_getD] at ih' ⊢
+    simp [List.getElem?_eq_getElem hp, ih']
+
+theorem mem_filterMap_getElem? {α : Type} {l : List α} {positions : List Nat} {x : α}
+    (h : x ∈ positions.filterMap (fun p => l[p]?)) : x ∈ l := by
+  obtain ⟨p, _, hp⟩ := List.mem_filterMap.mp h
+  exact List.mem_of_getElem? hp
+
+theorem filterMap_getElem?_map {α β : Type} (f : α → β) (l : List α) (positions : List Nat) :
+    positions.filterMap (fun p => (l.map f)[p]?) = (positions.filterMap (fun p => l[p]?)).map f := by
+  induction positions with
+  | nil => rfl
+  | cons p ps ih =>
+    simp only [List.getElem?_map] at ih ⊢
+    cases hp : l[p]? with
+    | none => simp [hp, ih]
+    | some x => simp [hp, ih]
 
 end OFCore.EnumCodec
